@@ -22,6 +22,8 @@ def main():
         kw = {}
         if args.get("cache_dir"):
             kw["cache_dir"] = args["cache_dir"]
+        if args.get("einsum_names"):
+            kw["einsum_names"] = args["einsum_names"]
         res = H.run_mapper(args["desc"], args["metrics"], eval_in_detail=args.get("eval_in_detail", True),
                            n_jobs=args.get("n_jobs", 1), **kw)
         rows = H.result_rows(res)
